@@ -140,9 +140,11 @@ class Gen:
             # a once-used intermediate with start data and its single, start-less consumer (eviction at every order)
             sp, sq = f"S{k}", f"S{k + 1}"
             st = r.choice([0, '"A_0"', '"A_0"'])
+            sq_start = r.choice([None, None, 1])  # a `start = 1` reader evaluates its off-diagonal zeroth order too
             lines += [f'    with "{sp}":', f"        start = {st}", f"        {self.expr(k, 1, False)}",
-                      f'    with "{sq}":', f'        "{sp}"' + (f" + {self.lit(inputs)}" if r.random() < 0.5 else "")]
-            start[sp], start[sq] = st, None
+                      f'    with "{sq}":'] + ([f"        start = {sq_start}"] if sq_start else []) + [
+                      f'        "{sp}"' + (f" + {self.lit(inputs)}" if r.random() < 0.5 else "")]
+            start[sp], start[sq] = st, sq_start
             names = names + [sp, sq]
             self.names = names
         tight = [n for n in self.terminal if n not in loose]
